@@ -600,21 +600,28 @@ def _dispatch_log_or_error(
             wire_batch_logger.debug("Classify batch: zero-row, no log keys -> data")
         return False
 
-    level_str = level_bytes.decode()
-    message_str = message_bytes.decode()
+    # The metadata comes from the peer (possibly a non-Python implementation): decode
+    # leniently so that a malformed log batch is delivered best-effort or ignored
+    # instead of failing the call with a decoding error.
+    level_str = level_bytes.decode(errors="replace")
+    message_str = message_bytes.decode(errors="replace")
 
     # Extract extra info (traceback, exception_type, etc.)
     raw_extra_data: dict[str, object] = {}
     raw_extra = custom_metadata.get(LOG_EXTRA_KEY)
     if raw_extra is not None:
-        with contextlib.suppress(json.JSONDecodeError):
-            raw_extra_data = json.loads(raw_extra.decode())
+        # ValueError covers JSONDecodeError, UnicodeDecodeError and the int-digit limit;
+        # RecursionError covers pathologically nested documents.
+        with contextlib.suppress(ValueError, RecursionError):
+            decoded_extra = json.loads(raw_extra.decode())
+            if isinstance(decoded_extra, dict):
+                raw_extra_data = decoded_extra
 
     # Extract request_id from batch metadata
     request_id_bytes = custom_metadata.get(REQUEST_ID_KEY)
     request_id = ""
     if request_id_bytes is not None:
-        request_id = request_id_bytes.decode()
+        request_id = request_id_bytes.decode(errors="replace")
 
     if wire_batch_logger.isEnabledFor(logging.DEBUG):
         wire_batch_logger.debug(
@@ -630,15 +637,23 @@ def _dispatch_log_or_error(
         raise RpcError(error_type, message_str, traceback_str, request_id=request_id)
 
     # Non-exception log message → invoke callback
-    # Coerce all extra values to str for Message(**extra)
-    extra: dict[str, str] = {k: str(v) for k, v in raw_extra_data.items()}
+    try:
+        level = Level(level_str)
+    except ValueError:
+        # Unknown level (newer or foreign peer): consume the batch, ignore the message
+        return True
+    # Coerce all extra values to str
+    extra: dict[str, object] = {k: str(v) for k, v in raw_extra_data.items()}
     # Extract server_id from top-level metadata into extra
     server_id_bytes = custom_metadata.get(SERVER_ID_KEY)
     if server_id_bytes is not None:
-        extra["server_id"] = server_id_bytes.decode()
+        extra["server_id"] = server_id_bytes.decode(errors="replace")
     if request_id:
         extra["request_id"] = request_id
-    msg = Message(Level(level_str), message_str, **extra)
+    # Extra keys are free-form and may be named like Message's own parameters
+    # ("level", "message", "self"), so they are not passed as **kwargs.
+    msg = Message(level, message_str)
+    msg.extra = extra or None
     if on_log is not None:
         on_log(msg)
     return True
